@@ -5,6 +5,7 @@
 //	-mode pairs  every unordered pair of SafeKV methods (incl. a method with itself) runs
 //	             concurrently on one SafeKV[int,int] with shared keys; the race detector
 //	             prints its reports to stderr, where "PAIR a b" markers delimit the pairs.
+//	-mode bulk   see runBulk; -mode gen: see runGen (large snapshots, 6000/12000 entries)
 //	-mode hist   rounds of G goroutines × M operations on a fresh SafeKV; invocation and
 //	             response order is recorded and each history is checked for
 //	             linearizability against a plain map (porcupine).  Snapshot operations
@@ -19,6 +20,7 @@ import (
 	"flag"
 	"fmt"
 	"os"
+	"runtime"
 	"sort"
 	"strings"
 	"sync"
@@ -114,13 +116,49 @@ func runPairs(only string, seed uint64, perPair time.Duration, minIters int) {
 				time.Sleep(200 * time.Microsecond)
 			}
 			stop.Store(true)
-			wg.Wait()
+			if !waitTimeout(&wg, 10*time.Second) {
+				// both sides were told to stop and every call is a handful of map
+				// operations: a call that does not return is blocked on the mutex
+				stuck("PAIR", ms[a].name+" "+ms[b].name, seed)
+			}
 			pairs++
 			iters += int(cnt[0].Load() + cnt[1].Load())
 			fmt.Fprintf(os.Stderr, "ENDPAIR %s %s\n", ms[a].name, ms[b].name)
 		}
 	}
 	fmt.Printf("PAIRS pairs=%d iters=%d\n", pairs, iters)
+}
+
+// waitTimeout waits for wg, at most d.
+func waitTimeout(wg *sync.WaitGroup, d time.Duration) bool {
+	done := make(chan struct{})
+	go func() { wg.Wait(); close(done) }()
+	select {
+	case <-done:
+		return true
+	case <-time.After(d):
+		return false
+	}
+}
+
+// stuck reports calls that never return (with the goroutine dump as the proof: the
+// goroutines are parked in sync.(*RWMutex) and nobody holds the lock any more) and
+// ends the process; the harness turns it into a `deadlock` failure with this replay.
+func stuck(mode, what string, seed uint64) {
+	buf := make([]byte, 1<<20)
+	buf = buf[:runtime.Stack(buf, true)]
+	var blocked []string
+	for _, g := range strings.Split(string(buf), "\n\n") {
+		if strings.Contains(g, "sync.(*RWMutex)") && strings.Contains(g, "mapz.(*SafeKV") {
+			if len(g) > 1500 {
+				g = g[:1500]
+			}
+			blocked = append(blocked, g)
+		}
+	}
+	b, _ := json.Marshal(map[string]any{"mode": mode, "what": what, "seed": seed, "blocked_goroutines": blocked})
+	fmt.Printf("STUCK %s\n", b)
+	os.Exit(3)
 }
 
 // ---------------------------------------------------------------- hist mode
@@ -377,7 +415,10 @@ func runHist(seed uint64, dur time.Duration, minRounds, G, M int, maxReport int)
 			}(g)
 		}
 		start.Done()
-		wg.Wait()
+		if !waitTimeout(&wg, 10*time.Second) {
+			b, _ := json.Marshal(scripts)
+			stuck("HIST", fmt.Sprintf("round_seed=%d scripts=%s", rseed, b), seed)
+		}
 		var hist []porcupine.Operation
 		var all []opRec
 		for g := range recs {
@@ -538,7 +579,9 @@ func runBulk(seed uint64, n int, dur time.Duration, minCycles int64) {
 		time.Sleep(time.Millisecond)
 	}
 	stop.Store(true)
-	wg.Wait()
+	if !waitTimeout(&wg, 10*time.Second) {
+		stuck("BULK", "writer "+inflight.Load().(string), seed)
+	}
 	mu.Lock()
 	for _, w := range wits {
 		b, _ := json.Marshal(w)
@@ -548,8 +591,188 @@ func runBulk(seed uint64, n int, dur time.Duration, minCycles int64) {
 	fmt.Printf("BULKSTAT n=%d cycles=%d observations=%d witnesses=%d\n", n, cycles.Load(), observations.Load(), len(wits))
 }
 
+// ---------------------------------------------------------------- gen mode
+//
+// Large snapshots (sizes beyond any plausible internal batching threshold). The map is
+// always exactly "keys 0..size(g)-1, every value = g" for a generation g, with
+// size(g) = N for even g and 2N for odd g; the writer moves it from g to g+1 inside ONE
+// Map call. An observer's traversal must see ONE generation and exactly size(g) entries.
+// Observers stop at their first inconsistency (witness = observer, N, the generations
+// and the count seen). No timing is involved in the verdict.
+
+type genWitness struct {
+	Observer string `json:"observer"`
+	N        int    `json:"n"`
+	Gens     []int  `json:"generations_seen_in_one_traversal"`
+	Count    int    `json:"entries_seen"`
+	Want     string `json:"expected"`
+	Cycle    int64  `json:"writer_generation"`
+	Seed     uint64 `json:"seed"`
+}
+
+func runGen(seed uint64, n int, dur time.Duration, minCycles int64) {
+	size := func(g int) int {
+		if g%2 == 0 {
+			return n
+		}
+		return 2 * n
+	}
+	s := mapz.NewSafeKV[int, int](0)
+	gen := 2
+	s.Map(func(m mapz.KV[int, int]) {
+		for k := 0; k < size(gen); k++ {
+			m[k] = gen
+		}
+	})
+	var cycles, observations atomic.Int64
+	var stop atomic.Bool
+	var mu sync.Mutex
+	var wits []genWitness
+	var wg sync.WaitGroup
+	wg.Add(1)
+	go func() { // writer: generation g -> g+1 in one call
+		defer wg.Done()
+		for !stop.Load() {
+			gen++
+			g := gen
+			s.Map(func(m mapz.KV[int, int]) {
+				sz := size(g)
+				for k := 0; k < sz; k++ {
+					m[k] = g
+				}
+				for k := sz; k < 2*n; k++ {
+					delete(m, k)
+				}
+			})
+			cycles.Add(1)
+			runtime.Gosched()
+		}
+	}()
+	// judge one traversal: values seen (nil = the observer cannot see values) and count
+	perObs := map[string]*atomic.Int64{}
+	for _, o := range []string{"All", "Range", "Keys", "Values", "GetWithMap", "Len"} {
+		perObs[o] = new(atomic.Int64)
+	}
+	minPer := func() int64 {
+		m := int64(1 << 62)
+		for _, c := range perObs {
+			if v := c.Load(); v < m {
+				m = v
+			}
+		}
+		return m
+	}
+	judge := func(obs string, gens map[int]int, count int) bool {
+		observations.Add(1)
+		perObs[obs].Add(1)
+		ok := true
+		var gs []int
+		for g := range gens {
+			gs = append(gs, g)
+		}
+		sort.Ints(gs)
+		want := fmt.Sprintf("one generation g and size(g) entries (%d for even g, %d for odd g)", n, 2*n)
+		switch {
+		case gens == nil:
+			ok = count == n || count == 2*n
+		case len(gs) != 1:
+			ok = false
+		default:
+			ok = count == size(gs[0])
+		}
+		if !ok {
+			mu.Lock()
+			wits = append(wits, genWitness{Observer: obs, N: n, Gens: gs, Count: count, Want: want, Cycle: cycles.Load(), Seed: seed})
+			mu.Unlock()
+		}
+		return ok
+	}
+	observers := []struct {
+		name string
+		f    func() bool
+	}{
+		{"All", func() bool {
+			gens := map[int]int{}
+			c := 0
+			for _, v := range s.All() {
+				gens[v]++
+				c++
+			}
+			return judge("All", gens, c)
+		}},
+		{"Range", func() bool {
+			gens := map[int]int{}
+			c := 0
+			s.Range(func(_, v int) bool { gens[v]++; c++; return true })
+			return judge("Range", gens, c)
+		}},
+		{"Keys", func() bool { return judge("Keys", nil, len(s.Keys())) }},
+		{"Values", func() bool {
+			gens := map[int]int{}
+			vs := s.Values()
+			for _, v := range vs {
+				gens[v]++
+			}
+			return judge("Values", gens, len(vs))
+		}},
+		{"GetWithMap", func() bool {
+			m := make(map[int]int, 2*n)
+			for k := 0; k < 2*n; k++ {
+				m[k] = 0
+			}
+			s.GetWithMap(m)
+			gens := map[int]int{}
+			c := 0
+			for _, v := range m {
+				if v != 0 {
+					gens[v]++
+					c++
+				}
+			}
+			return judge("GetWithMap", gens, c)
+		}},
+		{"Len", func() bool { return judge("Len", nil, s.Len()) }},
+	}
+	for _, o := range observers {
+		wg.Add(1)
+		o := o
+		go func() {
+			defer wg.Done()
+			for !stop.Load() {
+				if !o.f() {
+					return // stop at the first inconsistency
+				}
+			}
+		}()
+	}
+	deadline := time.Now().Add(dur)
+	hard := time.Now().Add(dur * 20)
+	for time.Now().Before(hard) {
+		mu.Lock()
+		nw := len(wits)
+		mu.Unlock()
+		// every observer has completed several traversals against a moving writer
+		// (an observer that found an inconsistency has stopped: do not wait for it)
+		if time.Now().After(deadline) && cycles.Load() >= minCycles && (minPer() >= 5 || nw > 0) {
+			break
+		}
+		time.Sleep(time.Millisecond)
+	}
+	stop.Store(true)
+	if !waitTimeout(&wg, 20*time.Second) {
+		stuck("GEN", "generation writer / observers", seed)
+	}
+	mu.Lock()
+	for _, w := range wits {
+		b, _ := json.Marshal(w)
+		fmt.Printf("GEN %s\n", b)
+	}
+	mu.Unlock()
+	fmt.Printf("GENSTAT n=%d cycles=%d observations=%d witnesses=%d minperobserver=%d\n", n, cycles.Load(), observations.Load(), len(wits), minPer())
+}
+
 func main() {
-	mode := flag.String("mode", "pairs", "pairs | hist | bulk")
+	mode := flag.String("mode", "pairs", "pairs | hist | bulk | gen")
 	bulkN := flag.Int("n", 300, "bulk mode: number of keys")
 	minCycles := flag.Int64("mincycles", 50, "bulk mode: minimum number of fill/empty cycles")
 	seed := flag.Uint64("seed", 1, "seed")
@@ -568,6 +791,8 @@ func main() {
 		runHist(*seed, *dur, *minRounds, *G, *M, 3)
 	case "bulk":
 		runBulk(*seed, *bulkN, *dur, *minCycles)
+	case "gen":
+		runGen(*seed, *bulkN, *dur, *minCycles)
 	default:
 		fmt.Fprintln(os.Stderr, "unknown mode")
 		os.Exit(2)
